@@ -18,10 +18,17 @@ this fuel".  `Rel rt rs` (Lemmas/Sim.lean): the typed result `rt` shows the Spec
 verdict, same end cursor (hence same byte offset), same final stack; `Res.outcome` is the Spec's view
 of a typed result (`Rel rt rs ↔ rs = oof ∨ rt.outcome = rs`).
 
-Hypothesis `SkipRulesAtomic g`: rules named WHITESPACE / COMMENT, if defined, are declared `@` or `$`.
+Hypothesis `SkipRulesAtomicLike g` (Lemmas/SkipLike.lean; the same as C02's): the rule the name
+WHITESPACE (resp. COMMENT) resolves to, if any, is declared `@` or `$`, OR its body is "simple"
+(`SimpleSkipBody`: no sequence, no repetition, no reference to a rule of the grammar, no `EOI`).
 pest forces the bodies of rules with these names to be atomic whatever their declared kind;
-pest-typed gives them their declared kind (known finding F-WS).  `C01_counterexample_F_WS` shows on a
-concrete grammar that the theorem is false without it.  No other hypothesis on the grammar is needed
+pest-typed gives them their declared kind (known finding F-WS).  In a simple body nothing consults
+the atomicity (`spec_simple_na`), so the idiomatic `WHITESPACE = _{ " " }`, `{ " " | "\t" | NEWLINE }`,
+`COMMENT = !{ "#" }` are covered (`c01SG` below).  The hypothesis is strictly weaker than the earlier
+`SkipRulesAtomic g` (every rule NAMED WHITESPACE / COMMENT is `@` / `$`): `SkipRulesAtomic.like`,
+`c01SG_like`, `c01SG_not_atomic`; every theorem below therefore also holds under `SkipRulesAtomic g`
+(pass `hws.like`).  `C01_counterexample_F_WS` shows on a concrete grammar that the theorem is false
+without the hypothesis.  No other hypothesis on the grammar is needed
 (duplicate rule names, undefined names, left recursion … are all covered: both sides resolve a name
 with the same `indexOf`, undefined names are built-ins / Unicode properties, divergence is `oof`).
 
@@ -40,6 +47,8 @@ Theorems (all for every grammar, expression, flag, cursor, stack, tracker, fuel)
   stack, or no match) is reached by the typed parser at some fuel iff it is reached by the Spec at
   some fuel.
 * `C01_counterexample_F_WS` — the hypothesis cannot be dropped.
+Each theorem is instantiated on `c01G` (`WHITESPACE = @{ " " }`) next to it and on `c01SG` (`WHITESPACE = _{ " " }`,
+silent: the case the weaker hypothesis adds) in the section after `C01_iff_entry`.
 -/
 import PestTyped.Lemmas.SimMain
 import PestTyped.Lemmas.SimBack
@@ -64,6 +73,9 @@ theorem c01G_ws : SkipRulesAtomic c01G := by
   · exact Or.inl rfl
   · simp at h
   · simp at h
+
+/-- … hence the (weaker) hypothesis of the theorems. -/
+theorem c01G_like : SkipRulesAtomicLike c01G := c01G_ws.like
 
 theorem c01G_main : c01G.indexOf "main" = some 2 := by decide
 
@@ -113,7 +125,7 @@ theorem c01_genExpr_main : genExpr c01G .one (.ident "main") = .ref 3 .one := by
 under atomicity `na` from cursor `i` and stack `S`, the generated node `genExpr g sk e`, run with an
 `INHERITED` argument such that the static flag means `na`, answers the same from any tracker, given
 enough fuel: same verdict, same end cursor, same final stack. -/
-theorem C01_forward (g : PGrammar) (uni : Uni) (hws : SkipRulesAtomic g) :
+theorem C01_forward (g : PGrammar) (uni : Uni) (hws : SkipRulesAtomicLike g) :
     ∀ n na e i S, spec g uni n na e i S ≠ .oof →
       ∀ inh sk trk, Flag.eval sk inh = na →
         ∃ n', Rel (parse (gen g) uni n' inh (genExpr g sk e) i ⟨S, trk⟩) (spec g uni n na e i S) :=
@@ -121,12 +133,12 @@ theorem C01_forward (g : PGrammar) (uni : Uni) (hws : SkipRulesAtomic g) :
 
 example : ∃ n', Rel (parse (gen c01G) c01Uni n' true (genExpr c01G .one (.ident "main")) c01I ⟨[], Tracker.new c01I⟩)
     (spec c01G c01Uni 8 true (.ident "main") c01I []) :=
-  C01_forward c01G c01Uni c01G_ws 8 true (.ident "main") c01I []
+  C01_forward c01G c01Uni c01G_like 8 true (.ident "main") c01I []
     (by have := c01_spec_main; unfold specPartial at this; rw [this]; nofun) true .one _ rfl
 
 /-- C01 (forward, all large fuels).  From some typed fuel on the typed result is one and the same
 and shows the Spec's answer. -/
-theorem C01_forward_eventually (g : PGrammar) (uni : Uni) (hws : SkipRulesAtomic g) :
+theorem C01_forward_eventually (g : PGrammar) (uni : Uni) (hws : SkipRulesAtomicLike g) :
     ∀ n na e i S, spec g uni n na e i S ≠ .oof →
       ∀ inh sk trk, Flag.eval sk inh = na →
         ∃ n0 r, Rel r (spec g uni n na e i S) ∧
@@ -136,11 +148,11 @@ theorem C01_forward_eventually (g : PGrammar) (uni : Uni) (hws : SkipRulesAtomic
 example : ∃ n0 r, Rel r (spec c01G c01Uni 8 true (.ident "main") c01I []) ∧
     ∀ n', n0 ≤ n' →
       parse (gen c01G) c01Uni n' true (genExpr c01G .one (.ident "main")) c01I ⟨[], Tracker.new c01I⟩ = r :=
-  C01_forward_eventually c01G c01Uni c01G_ws 8 true (.ident "main") c01I []
+  C01_forward_eventually c01G c01Uni c01G_like 8 true (.ident "main") c01I []
     (by have := c01_spec_main; unfold specPartial at this; rw [this]; nofun) true .one _ rfl
 
 /-- C01 (forward, check path). -/
-theorem C01_forward_check (g : PGrammar) (uni : Uni) (hws : SkipRulesAtomic g) :
+theorem C01_forward_check (g : PGrammar) (uni : Uni) (hws : SkipRulesAtomicLike g) :
     ∀ n na e i S, spec g uni n na e i S ≠ .oof →
       ∀ inh sk trk, Flag.eval sk inh = na →
         ∃ n', Rel (check (gen g) uni n' inh (genExpr g sk e) i ⟨S, trk⟩) (spec g uni n na e i S) := by
@@ -150,12 +162,12 @@ theorem C01_forward_check (g : PGrammar) (uni : Uni) (hws : SkipRulesAtomic g) :
 
 example : ∃ n', Rel (check (gen c01G) c01Uni n' true (genExpr c01G .one (.ident "main")) c01I ⟨[], Tracker.new c01I⟩)
     (spec c01G c01Uni 8 true (.ident "main") c01I []) :=
-  C01_forward_check c01G c01Uni c01G_ws 8 true (.ident "main") c01I []
+  C01_forward_check c01G c01Uni c01G_like 8 true (.ident "main") c01I []
     (by have := c01_spec_main; unfold specPartial at this; rw [this]; nofun) true .one _ rfl
 
 /-- C01 (forward, entry point).  `R::try_parse_partial(input)` for the rule named `name` (the
 `k`-th rule, rule id `k+1`) against pest's parse of `name` from an empty stack in NonAtomic mode. -/
-theorem C01_forward_entry (g : PGrammar) (uni : Uni) (hws : SkipRulesAtomic g) (name : String) (k : Nat)
+theorem C01_forward_entry (g : PGrammar) (uni : Uni) (hws : SkipRulesAtomicLike g) (name : String) (k : Nat)
     (hk : g.indexOf name = some k) (n : Nat) (i : Inp) (hne : specPartial g uni n name i ≠ .oof) :
     ∃ n', Rel (tryParsePartial (gen g) uni n' (k+1) i) (specPartial g uni n name i) := by
   have := C01_forward g uni hws n true (.ident name) i [] hne true .one (Tracker.new i) rfl
@@ -163,10 +175,10 @@ theorem C01_forward_entry (g : PGrammar) (uni : Uni) (hws : SkipRulesAtomic g) (
   exact this
 
 example : ∃ n', Rel (tryParsePartial (gen c01G) c01Uni n' 3 c01I) (specPartial c01G c01Uni 8 "main" c01I) :=
-  C01_forward_entry c01G c01Uni c01G_ws "main" 2 c01G_main 8 c01I (by rw [c01_spec_main]; nofun)
+  C01_forward_entry c01G c01Uni c01G_like "main" 2 c01G_main 8 c01I (by rw [c01_spec_main]; nofun)
 
 /-- C01 (forward, entry point, check path): `R::try_check_partial(input)`. -/
-theorem C01_forward_entry_check (g : PGrammar) (uni : Uni) (hws : SkipRulesAtomic g) (name : String) (k : Nat)
+theorem C01_forward_entry_check (g : PGrammar) (uni : Uni) (hws : SkipRulesAtomicLike g) (name : String) (k : Nat)
     (hk : g.indexOf name = some k) (n : Nat) (i : Inp) (hne : specPartial g uni n name i ≠ .oof) :
     ∃ n', Rel (tryCheckPartial (gen g) uni n' (k+1) i) (specPartial g uni n name i) := by
   have := C01_forward_check g uni hws n true (.ident name) i [] hne true .one (Tracker.new i) rfl
@@ -174,13 +186,13 @@ theorem C01_forward_entry_check (g : PGrammar) (uni : Uni) (hws : SkipRulesAtomi
   exact this
 
 example : ∃ n', Rel (tryCheckPartial (gen c01G) c01Uni n' 3 c01I) (specPartial c01G c01Uni 8 "main" c01I) :=
-  C01_forward_entry_check c01G c01Uni c01G_ws "main" 2 c01G_main 8 c01I (by rw [c01_spec_main]; nofun)
+  C01_forward_entry_check c01G c01Uni c01G_like "main" 2 c01G_main 8 c01I (by rw [c01_spec_main]; nofun)
 
 /-! ### agreement: two definite answers never differ -/
 
 /-- C01 (agreement).  If the typed run answers `a` at some fuel and the Spec answers `b` at some
 (other) fuel, then `a` shows exactly `b`: same verdict, same end cursor, same stack. -/
-theorem C01_agree (g : PGrammar) (uni : Uni) (hws : SkipRulesAtomic g) (n1 n2 : Nat) (na : Bool) (e : PExpr)
+theorem C01_agree (g : PGrammar) (uni : Uni) (hws : SkipRulesAtomicLike g) (n1 n2 : Nat) (na : Bool) (e : PExpr)
     (i : Inp) (S : List Sp) (inh : Bool) (sk : Flag) (trk : Tracker) (hsk : Flag.eval sk inh = na)
     (a : R Val) (b : SR)
     (ha : parse (gen g) uni n1 inh (genExpr g sk e) i ⟨S, trk⟩ = a) (hb : spec g uni n2 na e i S = b)
@@ -197,7 +209,7 @@ theorem C01_agree (g : PGrammar) (uni : Uni) (hws : SkipRulesAtomic g) (n1 n2 : 
 
 example : (parse (gen c01G) c01Uni 9 true (genExpr c01G .one (.ident "main")) c01I ⟨[], Tracker.new c01I⟩).outcome
     = spec c01G c01Uni 8 true (.ident "main") c01I [] :=
-  C01_agree c01G c01Uni c01G_ws 9 8 true (.ident "main") c01I [] true .one _ rfl _ _ rfl rfl
+  C01_agree c01G c01Uni c01G_like 9 8 true (.ident "main") c01I [] true .one _ rfl _ _ rfl rfl
     (by
       have h : genExpr c01G .one (.ident "main") = .ref 3 .one := by simp only [genExpr, c01G_main]
       have := c01_typed_main
@@ -207,7 +219,7 @@ example : (parse (gen c01G) c01Uni 9 true (genExpr c01G .one (.ident "main")) c0
     (by have := c01_spec_main; unfold specPartial at this; rw [this]; nofun)
 
 /-- C01 (agreement, check path). -/
-theorem C01_agree_check (g : PGrammar) (uni : Uni) (hws : SkipRulesAtomic g) (n1 n2 : Nat) (na : Bool)
+theorem C01_agree_check (g : PGrammar) (uni : Uni) (hws : SkipRulesAtomicLike g) (n1 n2 : Nat) (na : Bool)
     (e : PExpr) (i : Inp) (S : List Sp) (inh : Bool) (sk : Flag) (trk : Tracker) (hsk : Flag.eval sk inh = na)
     (a : R Unit) (b : SR)
     (ha : check (gen g) uni n1 inh (genExpr g sk e) i ⟨S, trk⟩ = a) (hb : spec g uni n2 na e i S = b)
@@ -222,12 +234,12 @@ theorem C01_agree_check (g : PGrammar) (uni : Uni) (hws : SkipRulesAtomic g) (n1
 
 example : (check (gen c01G) c01Uni 9 true (genExpr c01G .one (.ident "main")) c01I ⟨[], Tracker.new c01I⟩).outcome
     = spec c01G c01Uni 8 true (.ident "main") c01I [] :=
-  C01_agree_check c01G c01Uni c01G_ws 9 8 true (.ident "main") c01I [] true .one _ rfl _ _ rfl rfl
+  C01_agree_check c01G c01Uni c01G_like 9 8 true (.ident "main") c01I [] true .one _ rfl _ _ rfl rfl
     (by rw [c01_genExpr_main]; exact c01_check_ne_oof) c01_spec_ne_oof
 
 /-- C01 (agreement, entry point): `try_parse_partial` of rule `name` and pest's parse of `name`,
 each at a fuel where it answers, give the same verdict, end offset and stack. -/
-theorem C01_agree_entry (g : PGrammar) (uni : Uni) (hws : SkipRulesAtomic g) (name : String) (k : Nat)
+theorem C01_agree_entry (g : PGrammar) (uni : Uni) (hws : SkipRulesAtomicLike g) (name : String) (k : Nat)
     (hk : g.indexOf name = some k) (n1 n2 : Nat) (i : Inp) (a : R Val) (b : SR)
     (ha : tryParsePartial (gen g) uni n1 (k+1) i = a) (hb : specPartial g uni n2 name i = b)
     (hane : a ≠ .oof) (hbne : b ≠ .oof) : a.outcome = b := by
@@ -236,12 +248,12 @@ theorem C01_agree_entry (g : PGrammar) (uni : Uni) (hws : SkipRulesAtomic g) (na
   exact ha
 
 example : (tryParsePartial (gen c01G) c01Uni 9 3 c01I).outcome = specPartial c01G c01Uni 8 "main" c01I :=
-  C01_agree_entry c01G c01Uni c01G_ws "main" 2 c01G_main 9 8 c01I _ _ rfl rfl
+  C01_agree_entry c01G c01Uni c01G_like "main" 2 c01G_main 9 8 c01I _ _ rfl rfl
     (by intro h0; have := c01_typed_main; rw [h0] at this; cases this)
     (by rw [c01_spec_main]; nofun)
 
 /-- C01 (agreement, entry point, check path). -/
-theorem C01_agree_entry_check (g : PGrammar) (uni : Uni) (hws : SkipRulesAtomic g) (name : String) (k : Nat)
+theorem C01_agree_entry_check (g : PGrammar) (uni : Uni) (hws : SkipRulesAtomicLike g) (name : String) (k : Nat)
     (hk : g.indexOf name = some k) (n1 n2 : Nat) (i : Inp) (a : R Unit) (b : SR)
     (ha : tryCheckPartial (gen g) uni n1 (k+1) i = a) (hb : specPartial g uni n2 name i = b)
     (hane : a ≠ .oof) (hbne : b ≠ .oof) : a.outcome = b := by
@@ -254,7 +266,7 @@ theorem C01_agree_entry_check (g : PGrammar) (uni : Uni) (hws : SkipRulesAtomic 
 /-- C01 (backward).  Whenever the typed run of the generated node answers at some fuel `k`, the
 reference semantics answers at every sufficiently large fuel, and its answer is the typed one:
 same verdict, same end cursor, same final stack. -/
-theorem C01_backward (g : PGrammar) (uni : Uni) (hws : SkipRulesAtomic g) :
+theorem C01_backward (g : PGrammar) (uni : Uni) (hws : SkipRulesAtomicLike g) :
     ∀ k inh sk na e i S trk, Flag.eval sk inh = na →
       parse (gen g) uni k inh (genExpr g sk e) i ⟨S, trk⟩ ≠ .oof →
       ∃ n0, ∀ n, n0 ≤ n →
@@ -263,7 +275,7 @@ theorem C01_backward (g : PGrammar) (uni : Uni) (hws : SkipRulesAtomic g) :
 
 example : ∃ n0, ∀ n, n0 ≤ n → spec c01G c01Uni n true (.ident "main") c01I [] =
     (parse (gen c01G) c01Uni 9 true (genExpr c01G .one (.ident "main")) c01I ⟨[], Tracker.new c01I⟩).outcome :=
-  C01_backward c01G c01Uni c01G_ws 9 true .one true (.ident "main") c01I [] _ rfl
+  C01_backward c01G c01Uni c01G_like 9 true .one true (.ident "main") c01I [] _ rfl
     (by
       have h : genExpr c01G .one (.ident "main") = .ref 3 .one := by simp only [genExpr, c01G_main]
       have := c01_typed_main
@@ -272,7 +284,7 @@ example : ∃ n0, ∀ n, n0 ≤ n → spec c01G c01Uni n true (.ident "main") c0
       intro h0; rw [h0] at this; cases this)
 
 /-- C01 (backward, check path). -/
-theorem C01_backward_check (g : PGrammar) (uni : Uni) (hws : SkipRulesAtomic g) :
+theorem C01_backward_check (g : PGrammar) (uni : Uni) (hws : SkipRulesAtomicLike g) :
     ∀ k inh sk na e i S trk, Flag.eval sk inh = na →
       check (gen g) uni k inh (genExpr g sk e) i ⟨S, trk⟩ ≠ .oof →
       ∃ n0, ∀ n, n0 ≤ n →
@@ -287,7 +299,7 @@ theorem C01_backward_check (g : PGrammar) (uni : Uni) (hws : SkipRulesAtomic g) 
 
 /-- C01 (backward, entry point): a definite answer of `R::try_parse_partial` for the rule named
 `name` is pest's answer for `name`. -/
-theorem C01_backward_entry (g : PGrammar) (uni : Uni) (hws : SkipRulesAtomic g) (name : String) (r : Nat)
+theorem C01_backward_entry (g : PGrammar) (uni : Uni) (hws : SkipRulesAtomicLike g) (name : String) (r : Nat)
     (hr : g.indexOf name = some r) (k : Nat) (i : Inp) (hne : tryParsePartial (gen g) uni k (r+1) i ≠ .oof) :
     ∃ n0, ∀ n, n0 ≤ n → specPartial g uni n name i = (tryParsePartial (gen g) uni k (r+1) i).outcome := by
   have := C01_backward g uni hws k true .one true (.ident name) i [] (Tracker.new i) rfl
@@ -295,11 +307,11 @@ theorem C01_backward_entry (g : PGrammar) (uni : Uni) (hws : SkipRulesAtomic g) 
   exact this hne
 
 example : ∃ n0, ∀ n, n0 ≤ n → specPartial c01G c01Uni n "main" c01I = (tryParsePartial (gen c01G) c01Uni 9 3 c01I).outcome :=
-  C01_backward_entry c01G c01Uni c01G_ws "main" 2 c01G_main 9 c01I
+  C01_backward_entry c01G c01Uni c01G_like "main" 2 c01G_main 9 c01I
     (by intro h0; have := c01_typed_main; rw [h0] at this; cases this)
 
 /-- C01 (backward, entry point, check path). -/
-theorem C01_backward_entry_check (g : PGrammar) (uni : Uni) (hws : SkipRulesAtomic g) (name : String) (r : Nat)
+theorem C01_backward_entry_check (g : PGrammar) (uni : Uni) (hws : SkipRulesAtomicLike g) (name : String) (r : Nat)
     (hr : g.indexOf name = some r) (k : Nat) (i : Inp) (hne : tryCheckPartial (gen g) uni k (r+1) i ≠ .oof) :
     ∃ n0, ∀ n, n0 ≤ n → specPartial g uni n name i = (tryCheckPartial (gen g) uni k (r+1) i).outcome := by
   have := C01_backward_check g uni hws k true .one true (.ident name) i [] (Tracker.new i) rfl
@@ -311,7 +323,7 @@ theorem C01_backward_entry_check (g : PGrammar) (uni : Uni) (hws : SkipRulesAtom
 /-- C01 ("exactly when").  A definite outcome `o` — a match ending at a given cursor with a given
 stack, or no match — is what the typed run of the generated node gives at some fuel if and only if it
 is what the reference semantics gives at some fuel. -/
-theorem C01_iff (g : PGrammar) (uni : Uni) (hws : SkipRulesAtomic g) (inh : Bool) (sk : Flag) (na : Bool)
+theorem C01_iff (g : PGrammar) (uni : Uni) (hws : SkipRulesAtomicLike g) (inh : Bool) (sk : Flag) (na : Bool)
     (hsk : Flag.eval sk inh = na) (e : PExpr) (i : Inp) (S : List Sp) (trk : Tracker) (o : SR) (ho : o ≠ .oof) :
     (∃ k, (parse (gen g) uni k inh (genExpr g sk e) i ⟨S, trk⟩).outcome = o) ↔ (∃ n, spec g uni n na e i S = o) := by
   constructor
@@ -328,7 +340,7 @@ theorem C01_iff (g : PGrammar) (uni : Uni) (hws : SkipRulesAtomic g) (inh : Bool
 /-- C01 ("exactly when", entry point).  `R::try_parse_partial(input)` for the rule named `name`
 matches and stops at a given offset (resp. does not match) at some fuel exactly when pest's parse of
 `name` does at some fuel. -/
-theorem C01_iff_entry (g : PGrammar) (uni : Uni) (hws : SkipRulesAtomic g) (name : String) (r : Nat)
+theorem C01_iff_entry (g : PGrammar) (uni : Uni) (hws : SkipRulesAtomicLike g) (name : String) (r : Nat)
     (hr : g.indexOf name = some r) (i : Inp) (o : SR) (ho : o ≠ .oof) :
     (∃ k, (tryParsePartial (gen g) uni k (r+1) i).outcome = o) ↔ (∃ n, specPartial g uni n name i = o) := by
   have := C01_iff g uni hws true .one true rfl (.ident name) i [] (Tracker.new i) o ho
@@ -337,24 +349,144 @@ theorem C01_iff_entry (g : PGrammar) (uni : Uni) (hws : SkipRulesAtomic g) (name
 
 example : (∃ k, (tryParsePartial (gen c01G) c01Uni k 3 c01I).outcome = .ok ⟨0, 7, [], []⟩ []) ↔
     (∃ n, specPartial c01G c01Uni n "main" c01I = .ok ⟨0, 7, [], []⟩ []) :=
-  C01_iff_entry c01G c01Uni c01G_ws "main" 2 c01G_main c01I _ (by nofun)
+  C01_iff_entry c01G c01Uni c01G_like "main" 2 c01G_main c01I _ (by nofun)
 
 example : ∃ n, specPartial c01G c01Uni n "main" c01I = .ok ⟨0, 7, [], []⟩ [] := ⟨8, c01_spec_main⟩
 
 example : ∃ n0, ∀ n, n0 ≤ n → spec c01G c01Uni n true (.ident "main") c01I [] =
     (check (gen c01G) c01Uni 9 true (genExpr c01G .one (.ident "main")) c01I ⟨[], Tracker.new c01I⟩).outcome :=
-  C01_backward_check c01G c01Uni c01G_ws 9 true .one true (.ident "main") c01I [] _ rfl
+  C01_backward_check c01G c01Uni c01G_like 9 true .one true (.ident "main") c01I [] _ rfl
     (by rw [c01_genExpr_main]; exact c01_check_ne_oof)
 
 example : ∃ n0, ∀ n, n0 ≤ n → specPartial c01G c01Uni n "main" c01I = (tryCheckPartial (gen c01G) c01Uni 9 3 c01I).outcome :=
-  C01_backward_entry_check c01G c01Uni c01G_ws "main" 2 c01G_main 9 c01I c01_check_ne_oof
+  C01_backward_entry_check c01G c01Uni c01G_like "main" 2 c01G_main 9 c01I c01_check_ne_oof
 
 example : (tryCheckPartial (gen c01G) c01Uni 9 3 c01I).outcome = specPartial c01G c01Uni 8 "main" c01I :=
-  C01_agree_entry_check c01G c01Uni c01G_ws "main" 2 c01G_main 9 8 c01I _ _ rfl rfl c01_check_ne_oof c01_spec_ne_oof
+  C01_agree_entry_check c01G c01Uni c01G_like "main" 2 c01G_main 9 8 c01I _ _ rfl rfl c01_check_ne_oof c01_spec_ne_oof
 
 example : (∃ k, (parse (gen c01G) c01Uni k true (genExpr c01G .one (.ident "main")) c01I ⟨[], Tracker.new c01I⟩).outcome
       = .ok ⟨0, 7, [], []⟩ []) ↔ (∃ n, spec c01G c01Uni n true (.ident "main") c01I [] = .ok ⟨0, 7, [], []⟩ []) :=
-  C01_iff c01G c01Uni c01G_ws true .one true rfl (.ident "main") c01I [] _ _ (by nofun)
+  C01_iff c01G c01Uni c01G_like true .one true rfl (.ident "main") c01I [] _ _ (by nofun)
+
+/-! ### non-vacuity of the weaker hypothesis: the idiomatic silent `WHITESPACE = _{ " " }` -/
+
+/-- `WHITESPACE = _{ " " }  item = { "a" ~ "b"* }  main = { PUSH(item) ~ POP ~ EOI }`: `c01G` with
+WHITESPACE declared SILENT (the form the test corpus uses). -/
+def c01SG : PGrammar :=
+  [ ⟨"WHITESPACE", .silent, .str [' ']⟩,
+    ⟨"item", .normal, .seq (.str ['a']) (.rep (.str ['b']))⟩,
+    ⟨"main", .normal, .seq (.push (.ident "item")) (.seq (.ident "POP") (.ident "EOI"))⟩ ]
+
+/-- The hypothesis of the theorems holds: WHITESPACE has a simple body; COMMENT is not defined. -/
+theorem c01SG_like : SkipRulesAtomicLike c01SG := by
+  intro nm r hnm hf
+  rcases hnm with rfl | rfl
+  · simp [PGrammar.find?, PGrammar.indexOf, PGrammar.indexOf.go, c01SG] at hf
+    subst hf
+    exact Or.inr (by simp [SimpleSkipBody])
+  · simp [PGrammar.find?, PGrammar.indexOf, PGrammar.indexOf.go, c01SG] at hf
+
+/-- … while the earlier, stronger hypothesis does not (WHITESPACE is neither `@` nor `$`). -/
+theorem c01SG_not_atomic : ¬ SkipRulesAtomic c01SG := by
+  intro h
+  have := h ⟨"WHITESPACE", .silent, .str [' ']⟩ (by simp [c01SG]) (Or.inl rfl)
+  simp at this
+
+theorem c01SG_main : c01SG.indexOf "main" = some 2 := by decide
+theorem c01SG_wsIdx : c01SG.indexOf "WHITESPACE" = some 0 := by decide
+
+/-- The module generated for `c01SG`: WHITESPACE keeps its declared kind (inherited atomicity,
+transparent emission). -/
+def c01SNG : NodeGrammar :=
+  { rules := [eoiDef,
+      { name := "WHITESPACE", atom := .inherited, emit := .expression, boxed := true, body := .str [' '] },
+      { name := "item", atom := .inherited, emit := .both, boxed := true,
+        body := .seq .inh [.str ['a'], .rep .inh 0 none (.str ['b'])] },
+      { name := "main", atom := .inherited, emit := .both, boxed := true,
+        body := .seq .inh [.push (.ref 2 .inh), .pop, .ref 0 .one] }],
+    skipped := .atomicRepeat (.ref 1 .zero) }
+
+theorem c01S_gen : gen c01SG = c01SNG := by
+  simp [gen, c01SG, c01SNG, genRule, genExpr, genSeqSpine, genSkipped, PGrammar.indexOf, PGrammar.indexOf.go,
+    kindAtomicity, kindEmission, atomFlag, builtinNode]
+
+set_option maxRecDepth 100000 in
+/-- pest's answer on `a b a b`: all seven bytes, stack empty again. -/
+theorem c01S_spec_main : specPartial c01SG c01Uni 8 "main" c01I = .ok ⟨0, 7, [], []⟩ [] := by decide
+
+set_option maxRecDepth 100000 in
+theorem c01S_typed_main : (tryParsePartial (gen c01SG) c01Uni 9 3 c01I).outcome = .ok ⟨0, 7, [], []⟩ [] := by
+  rw [c01S_gen]
+  decide
+
+set_option maxRecDepth 100000 in
+theorem c01S_check_main : (tryCheckPartial (gen c01SG) c01Uni 9 3 c01I).outcome = .ok ⟨0, 7, [], []⟩ [] := by
+  rw [c01S_gen]
+  decide
+
+theorem c01S_typed_ne_oof : tryParsePartial (gen c01SG) c01Uni 9 3 c01I ≠ .oof := by
+  intro h0; have := c01S_typed_main; rw [h0] at this; cases this
+
+theorem c01S_check_ne_oof : tryCheckPartial (gen c01SG) c01Uni 9 3 c01I ≠ .oof := by
+  intro h0; have := c01S_check_main; rw [h0] at this; cases this
+
+theorem c01S_spec_ne_oof : specPartial c01SG c01Uni 8 "main" c01I ≠ .oof := by
+  rw [c01S_spec_main]; nofun
+
+example : ∃ n', Rel (tryParsePartial (gen c01SG) c01Uni n' 3 c01I) (specPartial c01SG c01Uni 8 "main" c01I) :=
+  C01_forward_entry c01SG c01Uni c01SG_like "main" 2 c01SG_main 8 c01I c01S_spec_ne_oof
+
+example : ∃ n', Rel (tryCheckPartial (gen c01SG) c01Uni n' 3 c01I) (specPartial c01SG c01Uni 8 "main" c01I) :=
+  C01_forward_entry_check c01SG c01Uni c01SG_like "main" 2 c01SG_main 8 c01I c01S_spec_ne_oof
+
+example : (tryParsePartial (gen c01SG) c01Uni 9 3 c01I).outcome = specPartial c01SG c01Uni 8 "main" c01I :=
+  C01_agree_entry c01SG c01Uni c01SG_like "main" 2 c01SG_main 9 8 c01I _ _ rfl rfl c01S_typed_ne_oof c01S_spec_ne_oof
+
+example : (tryCheckPartial (gen c01SG) c01Uni 9 3 c01I).outcome = specPartial c01SG c01Uni 8 "main" c01I :=
+  C01_agree_entry_check c01SG c01Uni c01SG_like "main" 2 c01SG_main 9 8 c01I _ _ rfl rfl c01S_check_ne_oof
+    c01S_spec_ne_oof
+
+example : ∃ n0, ∀ n, n0 ≤ n → specPartial c01SG c01Uni n "main" c01I = (tryParsePartial (gen c01SG) c01Uni 9 3 c01I).outcome :=
+  C01_backward_entry c01SG c01Uni c01SG_like "main" 2 c01SG_main 9 c01I c01S_typed_ne_oof
+
+example : ∃ n0, ∀ n, n0 ≤ n → specPartial c01SG c01Uni n "main" c01I = (tryCheckPartial (gen c01SG) c01Uni 9 3 c01I).outcome :=
+  C01_backward_entry_check c01SG c01Uni c01SG_like "main" 2 c01SG_main 9 c01I c01S_check_ne_oof
+
+example : (∃ k, (tryParsePartial (gen c01SG) c01Uni k 3 c01I).outcome = .ok ⟨0, 7, [], []⟩ []) ↔
+    (∃ n, specPartial c01SG c01Uni n "main" c01I = .ok ⟨0, 7, [], []⟩ []) :=
+  C01_iff_entry c01SG c01Uni c01SG_like "main" 2 c01SG_main c01I _ (by nofun)
+
+/-- The input ` x` (a blank, then `x`). -/
+def c01SI : Inp := ⟨0, 0, [' ', 'x'], []⟩
+
+set_option maxRecDepth 100000 in
+/-- The case the weaker hypothesis adds, hit directly: WHITESPACE itself as entry rule.  pest enters
+it in NonAtomic mode and forces Atomic inside (`bodyNa … = false`); the typed parser runs the body
+with `INHERITED = true`.  The body is simple, so both match the one blank. -/
+theorem c01S_ws_entry :
+    specPartial c01SG c01Uni 2 "WHITESPACE" c01SI = .ok ⟨0, 1, ['x'], []⟩ [] ∧
+    (tryParsePartial (gen c01SG) c01Uni 2 1 c01SI).outcome = .ok ⟨0, 1, ['x'], []⟩ [] ∧
+    bodyNa "WHITESPACE" .silent true = false ∧ (atomFlag (kindAtomicity .silent)).eval true = true := by
+  rw [c01S_gen]; decide
+
+example : (∃ k, (tryParsePartial (gen c01SG) c01Uni k 1 c01SI).outcome = .ok ⟨0, 1, ['x'], []⟩ []) ↔
+    (∃ n, specPartial c01SG c01Uni n "WHITESPACE" c01SI = .ok ⟨0, 1, ['x'], []⟩ []) :=
+  C01_iff_entry c01SG c01Uni c01SG_like "WHITESPACE" 0 c01SG_wsIdx c01SI _ (by nofun)
+
+example : ∃ n0, ∀ n, n0 ≤ n → spec c01SG c01Uni n true (.ident "main") c01I [] =
+    (parse (gen c01SG) c01Uni 9 true (genExpr c01SG .one (.ident "main")) c01I ⟨[], Tracker.new c01I⟩).outcome :=
+  C01_backward c01SG c01Uni c01SG_like 9 true .one true (.ident "main") c01I [] _ rfl
+    (by
+      have h : genExpr c01SG .one (.ident "main") = .ref 3 .one := by simp only [genExpr, c01SG_main]
+      have := c01S_typed_main
+      unfold tryParsePartial M.init at this
+      rw [h]
+      intro h0; rw [h0] at this; cases this)
+
+example : ∃ n', Rel (parse (gen c01SG) c01Uni n' true (genExpr c01SG .one (.ident "main")) c01I ⟨[], Tracker.new c01I⟩)
+    (spec c01SG c01Uni 8 true (.ident "main") c01I []) :=
+  C01_forward c01SG c01Uni c01SG_like 8 true (.ident "main") c01I []
+    (by have := c01S_spec_main; unfold specPartial at this; rw [this]; nofun) true .one _ rfl
 
 /-! ### the hypothesis cannot be dropped (known finding F-WS) -/
 
@@ -368,12 +500,14 @@ def c01WsG : PGrammar :=
 def c01WsI : Inp := ⟨0, 0, ['x', '/', ' ', '/', 'y'], []⟩
 
 set_option maxRecDepth 100000 in
-/-- Without `SkipRulesAtomic` the forward theorem is false: with `COMMENT` declared non-atomic (`!`),
-pest (which forces COMMENT to be atomic) does not take `/ /` for a comment and `main` fails on
-`x/ /y`, while the typed parser, which gives COMMENT its declared kind, skips inside the comment,
-takes `/ /` for one and matches all five bytes. -/
+/-- Without `SkipRulesAtomicLike` the theorems are false: with `COMMENT` declared non-atomic (`!`) and a
+body that is a SEQUENCE (a skip site: not a simple body), pest (which forces COMMENT to be atomic) does
+not take `/ /` for a comment and `main` fails on `x/ /y`, while the typed parser, which gives COMMENT
+its declared kind, skips inside the comment, takes `/ /` for one and matches all five bytes.
+(`¬ SkipRulesAtomicLike` is the stronger statement: it implies `¬ SkipRulesAtomic` by
+`SkipRulesAtomic.like`.) -/
 theorem C01_counterexample_F_WS :
-    ¬ SkipRulesAtomic c01WsG ∧
+    ¬ SkipRulesAtomicLike c01WsG ∧
     specPartial c01WsG c01Uni 5 "main" c01WsI = .fail ∧
     (tryParsePartial (gen c01WsG) c01Uni 15 3 c01WsI).outcome = .ok ⟨0, 5, [], []⟩ [] := by
   have hgen : gen c01WsG =
@@ -388,7 +522,11 @@ theorem C01_counterexample_F_WS :
       kindAtomicity, kindEmission, atomFlag]
   refine ⟨?_, by decide, by rw [hgen]; decide⟩
   intro h
-  have := h ⟨"COMMENT", .nonAtomic, .seq (.str ['/']) (.str ['/'])⟩ (by simp [c01WsG]) (Or.inr rfl)
-  simp at this
+  have := h "COMMENT" ⟨"COMMENT", .nonAtomic, .seq (.str ['/']) (.str ['/'])⟩ (Or.inr rfl)
+    (by simp [PGrammar.find?, PGrammar.indexOf, PGrammar.indexOf.go, c01WsG])
+  simp [SimpleSkipBody] at this
+
+/-- In particular the earlier hypothesis fails on it too. -/
+example : ¬ SkipRulesAtomic c01WsG := fun h => C01_counterexample_F_WS.1 h.like
 
 end PestTyped
